@@ -626,7 +626,8 @@ def cross_classes(c):
 # ---------------------------------------------------------------- binding isolation
 
 op_s = st.one_of(
-    st.tuples(st.just('set_variable'), st.sampled_from(['v_only', 'v_a', 'TRUE', 'v_new']), st.one_of(st.integers(0, 9), st.just('txt'), st.none())),
+    st.tuples(st.just('set_variable'), st.sampled_from(['v_only', 'v_a', 'TRUE', 'v_new', 'Q9', 'B2', 'A1']),        # (the last three: names spelled like cells)
+    st.one_of(st.integers(0, 9), st.just('txt'), st.none())),
     st.tuples(st.just('set_function'), st.sampled_from(['ONLYA', 'SUM', 'ID', 'MY.FN']), st.integers(0, 9)),
     st.tuples(st.just('on'), st.sampled_from(['callCellValue', 'callRangeValue', 'callVariable', 'callFunction']), st.integers(0, 9)),
     st.tuples(st.just('once'), st.sampled_from(['callCellValue', 'callRangeValue', 'callVariable', 'callFunction']), st.integers(0, 9)),
